@@ -54,7 +54,12 @@ def proj_msg(m):
 
 
 def rand_ip(r):
-    c = r.randrange(5)
+    c = r.randrange(7)
+    if c == 5:      # IPv6 text forms with an embedded dotted quad (what the parser itself returns for some wire addresses)
+        q = "%d.%d.%d.%d" % tuple(r.getrandbits(8) for _ in range(4))
+        return r.choice(["::ffff:" + q, "::" + q, "::0.0.0.5", "64:ff9b::" + q, "2001:db8::" + q])
+    if c == 6:      # wire addresses whose first twelve bytes are zero, or the mapped prefix with a zero quad
+        return socket.inet_ntop(socket.AF_INET6, r.choice([bytes(12) + gen.rbytes(r, 4), bytes(10) + b"\xff\xff" + bytes(4), bytes(15) + b"\x01", bytes(16)]))
     if c == 0:
         return "0.0.0.0"
     if c == 1:
